@@ -18,7 +18,13 @@ Conforms_C17(r) ==
   /\ IF Constrained(r)
      THEN IF Hits(r) = {} THEN r.outcome = "notfound"
           ELSE r.outcome = "found" /\ r.level = Max(Hits(r))    \* the nearest one, never above the stop directory
-     ELSE r.outcome = "notfound" \/ (r.level \in Ancestors(r) /\ Kind(r, r.level) = "file")
+     ELSE IF r.start >= 0 /\ r.stop >= 0
+     \* start lies above stop: every directory at or above start is above the stop directory; either answer is accepted
+     THEN r.outcome = "notfound" \/ (r.level \in Ancestors(r) /\ Kind(r, r.level) = "file")
+     \* start or stop is the unrelated directory: no directory at or above start is above stop (but the spokfile-free root),
+     \* so the nearest enclosing spokfile has to be found
+     ELSE LET H == {l \in Ancestors(r) : Kind(r, l) = "file"} IN
+          IF H = {} THEN r.outcome = "notfound" ELSE r.outcome = "found" /\ r.level = Max(H)
 
 ASSUME JsonSerialize("verdict.json",
    [Conforms_C17 |-> SetToSeq({i \in DOMAIN Recs : ~Conforms_C17(Recs[i])}),
